@@ -9,33 +9,69 @@ ALL = ("IntString", "FloatString", "BooleanString", "IsoDateString", "IsoTimeStr
 
 
 def grammar_strings(r, n):
-    """structured grammar: signs, exponents, underscores, whitespace, non-ASCII digits, case variants, ISO fragments"""
-    out = set()
-    signs = ["", "+", "-", "--", "+-"]
-    ws = ["", " ", "\t", "\n", " ", " "]
-    digits = ["0", "1", "42", "007", "1_000", "1__0", "_1", "1_", "١٢", "１２", "9" * 25]
-    fracs = ["", ".", ".5", ".0", "._5", ".5_0"]
-    exps = ["", "e3", "E-2", "e+10", "e", "e1_0", "e١"]
-    for s, w1, d, f, e, w2 in itertools.product(signs, ws[:3], digits, fracs, exps, ws[:2]):
-        if r.random() < 0.35:
-            out.add(w1 + s + d + f + e + w2)
-    for x in ["inf", "Inf", "INF", "infinity", "-Infinity", "+inf", "nan", "NaN", "-nan", "nan ", " inf", "in f", "infinit", "1e400", "-0.0", "0x10", "1j", "1.5.2", ""]:
-        out.add(x)
-    for x in ["true", "false", "True", "FALSE", "tRuE", " true", "true ", "yes", "1", "0", "t", "truefalse"]:
-        out.add(x)
-    dates = ["2020-01-02", "2020-1-2", "20200102", "2020-01", "2020", "2020-W01-1", "2020-001", "02/01/2020", "2020-13-01", "2020-02-30", "0001-01-01", "9999-12-31"]
-    times = ["12:30", "12:30:45", "12:30:45.123", "12:30:45.123456", "T12", "1230", "24:00", "12:60", "12:30Z", "12:30+01:00", "12:30:45,5", "12"]
-    for d in dates:
-        out.add(d)
-        for sep in ["T", " ", "t"]:
-            for t in times[:8]:
-                if r.random() < 0.5:
-                    out.add(d + sep + t)
-                    out.add(d + sep + t + r.choice(["", "Z", "+01:00", "-0530", "+01"]))
-    for t in times:
-        out.add(t)
-    out = sorted(out)
-    r.shuffle(out)
+    """structured grammar, mostly valid strings (ints, floats, booleans, ISO dates / times / datetimes with the variations the
+    property names) plus a malformed stream obtained by mutating valid ones"""
+    ws = ["", "", "", " ", "\t", "\n", "\u2003", "\u00a0"]
+    sign = ["", "", "+", "-"]
+
+    def digits(k=None):
+        k = k or r.randint(1, 6)
+        d = "".join(r.choice("0123456789") for _ in range(k))
+        if r.random() < 0.15:
+            d = d.translate(str.maketrans("0123456789", r.choice(["٠١٢٣٤٥٦٧٨٩", "０１２３４５６７８９"])))
+        if r.random() < 0.2 and len(d) > 2:
+            i = r.randint(1, len(d) - 1)
+            d = d[:i] + "_" + d[i:]
+        return d
+
+    def int_s():
+        return r.choice(ws) + r.choice(sign) + digits() + r.choice(ws)
+
+    def float_s():
+        k = r.random()
+        if k < 0.15:
+            return r.choice(ws) + r.choice(sign) + r.choice(["inf", "Inf", "INF", "infinity", "Infinity", "nan", "NaN", "NAN"]) + r.choice(ws)
+        m = r.choice([digits() + "." + digits(), digits() + ".", "." + digits(), digits()])
+        e = r.choice(["", "", "e" + r.choice(sign) + digits(2), "E" + digits(1)])
+        if "." not in m and not e:
+            e = "e" + digits(1)
+        return r.choice(ws) + r.choice(sign) + m + e + r.choice(ws)
+
+    def bool_s():
+        return "".join(c.upper() if r.random() < 0.3 else c for c in r.choice(["true", "false"]))
+
+    def date_s():
+        y, m, d = r.randint(1, 9999), r.randint(1, 12), r.randint(1, 28)
+        return r.choice([f"{y:04d}-{m:02d}-{d:02d}", f"{y:04d}{m:02d}{d:02d}", f"{y:04d}-{m:02d}", f"{y:04d}-W{r.randint(1, 52):02d}-{r.randint(1, 7)}",
+                         f"{y:04d}-{r.randint(1, 365):03d}", f"{y:04d}"])
+
+    def time_s():
+        h, mi, sec = r.randint(0, 23), r.randint(0, 59), r.randint(0, 59)
+        t = r.choice([f"{h:02d}:{mi:02d}", f"{h:02d}:{mi:02d}:{sec:02d}", f"{h:02d}:{mi:02d}:{sec:02d}.{r.randint(0, 999999):06d}",
+                      f"{h:02d}:{mi:02d}:{sec:02d}.{r.randint(0, 999):03d}", f"{h:02d}{mi:02d}", f"{h:02d}{mi:02d}{sec:02d}", f"{h:02d}"])
+        return t + r.choice(["", "", "Z", "+01:00", "-05:30", "+0100", "+01"])
+
+    def datetime_s():
+        return date_s() + r.choice(["T", "T", " ", "t"]) + time_s()
+
+    def mutate(x):
+        k = r.random()
+        if not x:
+            return "x"
+        i = r.randrange(len(x))
+        if k < 0.3:
+            return x[:i] + x[i + 1:]
+        if k < 0.6:
+            return x[:i] + r.choice("_-+.:eTZ x/") + x[i:]
+        if k < 0.8:
+            return x + x
+        return x[:i] + r.choice("abcXYZ") + x[i + 1:]
+    gens = [int_s, float_s, bool_s, date_s, time_s, datetime_s]
+    out = ["", "1", "0", "-0.0", "1e400", "0x10", "1j", "1.5.2", "9" * 25, "12345678901-2", "yes", "t", "24:00", "12:60", "2020-13-01", "2020-02-30",
+           "0001-01-01", "9999-12-31", "1__0", "_1", "1_", "02/01/2020", "12:30:45,5", "T12", "2020-W01-1"]
+    while len(out) < n:
+        x = r.choice(gens)()
+        out.append(x if r.random() < 0.7 else mutate(x))
     return out[:n]
 
 
